@@ -41,13 +41,14 @@ def make_pass(rng, n, first=None, gaps=True):
     return lns
 
 
-def call_impl(cal, chan, lns, prt3, ict10, space10, counts):
+def call_impl(cal, chan, lns, prt3, ict10, space10, counts, line_dtype=None):
     from pygac.calibration.noaa import calibrate_thermal
     prt = np.array(prt3, dtype=float) / 3.0
     ict = np.array([x[chan] for x in ict10], dtype=float) / 10.0
     space = np.array([x[chan] for x in space10], dtype=float) / 10.0
     try:
-        out = calibrate_thermal(counts.copy(), prt, ict, space, np.array(lns), chan + 3, cal)
+        out = calibrate_thermal(counts.copy(), prt, ict, space, np.array(lns) if line_dtype is None else np.array(lns).astype(line_dtype),
+                                chan + 3, cal)
     except IndexError:
         return 0, None
     except ValueError:
